@@ -46,7 +46,7 @@ class Cfg:
         self.kind = kind
         self.weighted = rng.random() < 0.5 if weighted is None else weighted
         self.uni_name = uni or rng.choice(list(UNIVERSES))
-        u = list(UNIVERSES[self.uni_name])
+        u = list(UNIVERSES.get(self.uni_name, UNIVERSES["gaps"]))
         rng.shuffle(u)
         self.labels = u[: rng.randint(3, 8)]
         self.layers = rng.choice(LAYERS)
